@@ -60,6 +60,7 @@ def str_method(x, st, recv, name, pos, kw, node, chain):
             p = z3.String(fresh_name("pfx"))
             suf = z3.StringVal(a0.t["suffix"])
             st.pc.append(z3.Implies(b, z3.And(op(p, s), z3.SuffixOf(suf, p), z3.Length(p) >= z3.Length(suf))))
+            st.pc.append(z3.Implies(b, z3.Contains(s, suf)))     # consequence, stated to keep the query easy
             return [(st, vbool(b))]
         if a0.k == "tuple":
             ts = [x.as_str(e) for e in a0.t]
